@@ -211,7 +211,12 @@ class TaskScenario(ScenarioData):
         for task in self.project.tasks:
             if not task.leaf():
                 continue
-            deps = task.get("depends", self.scenarioIdx) or []
+            # Own dependencies and those inherited from enclosing containers
+            task_scenario = task.data[self.scenarioIdx] if task.data else None
+            if task_scenario is not None:
+                deps = task_scenario.getAllDependencies()
+            else:
+                deps = task.get("depends", self.scenarioIdx) or []
             for dep in deps:
                 if isinstance(dep, dict):
                     pred = dep.get("task")
@@ -225,6 +230,32 @@ class TaskScenario(ScenarioData):
                     break
 
         return successors
+
+    def _successorGapHours(self, successor: Any) -> float:
+        """
+        Largest gapduration (in hours) on the finish-to-start dependencies that
+        the given successor (or one of its enclosing containers) has on this task.
+        """
+        successor_scenario = successor.data[self.scenarioIdx] if successor.data else None
+        if successor_scenario is not None:
+            deps = successor_scenario.getAllDependencies()
+        else:
+            deps = successor.get("depends", self.scenarioIdx) or []
+        gap_hours = 0.0
+        for dep in deps:
+            if isinstance(dep, dict):
+                pred = dep.get("task")
+                gapduration = dep.get("gapduration")
+                onstart = dep.get("onstart", False)
+            elif hasattr(dep, "task"):
+                pred = dep.task
+                gapduration = getattr(dep, "gapduration", None)
+                onstart = getattr(dep, "onstart", False)
+            else:
+                continue
+            if pred is self.property and gapduration and not onstart:
+                gap_hours = max(gap_hours, self._parse_duration(gapduration))
+        return gap_hours
 
     def _getSuccessorsWithMaxGap(self) -> list[tuple[Any, Any, Any]]:
         """
@@ -566,6 +597,13 @@ class TaskScenario(ScenarioData):
                     successors = self._getSuccessors()
                     for successor in successors:
                         succ_start = successor.get("start", self.scenarioIdx)
+                        if succ_start:
+                            # This task must end gapduration before the successor starts
+                            gap_hours = self._successorGapHours(successor)
+                            if gap_hours:
+                                from datetime import timedelta
+
+                                succ_start = succ_start - timedelta(hours=gap_hours)
                         if succ_start and succ_start < latest_end:
                             latest_end = succ_start
 
